@@ -173,11 +173,21 @@ func (e *envT) describe(st *wstate) map[string]interface{} {
 // step restores preSnap into w, runs o (under server fault `fault`, "" = none) and evaluates the oracle.
 func (e *envT) step(w *worker, pre *wstate, preSnap snap, o opDef, fault string, where string) (so stepOut) {
 	so = stepOut{counters: map[string]int64{}, fault: fault}
-	restore(preSnap, w.R)
-	w.loadServers(pre, fault)
-	t0 := time.Now()
-	res, enabled := e.apply(w, pre, o)
-	so.opDur = time.Since(t0)
+	var res gitx.Res
+	var enabled bool
+	// a command that hits the tool timeout (an overloaded machine stalls processes for minutes) is re-executed from
+	// the same pre-state: a transition is a deterministic function of (state, operation, fault)
+	for attempt := 0; attempt < 3; attempt++ {
+		restore(preSnap, w.R)
+		w.loadServers(pre, fault)
+		t0 := time.Now()
+		res, enabled = e.apply(w, pre, o)
+		so.opDur = time.Since(t0)
+		if !res.TimedOut {
+			break
+		}
+		so.counters["tool_timeouts_retried"]++
+	}
 	so.enabled, so.res = enabled, res
 	if !enabled {
 		return so
@@ -271,6 +281,33 @@ func (e *envT) oracle(w *worker, pre *wstate, o opDef, fault, where string, so *
 
 	preRefs, postRefs := pre.RRefs[ri], post.RRefs[ri]
 	changed := !mapsEqual(preRefs, postRefs)
+	// staleClass: is the object referenced by a commit that the local clone believes to be on the remote (reachable from a
+	// remote-tracking ref of this remote)?  Then git-lfs filtered it out on the strength of that (possibly stale) ref:
+	// was the branch deleted on the remote in the meantime, or does it still exist there (moved)?
+	pfx := "refs/remotes/" + rname + "/"
+	staleClass := func(oid string) string {
+		cl := ""
+		for _, k := range sortedKeys(pre.LRefs) {
+			if !strings.HasPrefix(k, pfx) || !e.closureOids(w, loc, pre.LRefs[k])[oid] {
+				continue
+			}
+			if _, still := preRefs["refs/heads/"+k[len(pfx):]]; still {
+				return "stale-tracking-ref-of-branch-moved-on-remote"
+			}
+			cl = "stale-tracking-ref-of-branch-deleted-on-remote"
+		}
+		if cl != "" {
+			// finding 1 needs that no cached branch of this remote survives; anything else is a different defect
+			for _, k := range sortedKeys(pre.LRefs) {
+				if strings.HasPrefix(k, pfx) {
+					if _, still := preRefs["refs/heads/"+k[len(pfx):]]; still {
+						return cl + ":although-another-cached-branch-remains"
+					}
+				}
+			}
+		}
+		return cl
+	}
 	var needs, want []need
 	trigger := false
 
@@ -284,33 +321,7 @@ func (e *envT) oracle(w *worker, pre *wstate, o opDef, fault, where string, so *
 		if len(newCommits) > 0 {
 			so.counters["P1.pushes_with_new_commits_on_remote"]++
 		}
-		checkOnServer(needs, fmt.Sprintf("%d commit(s) became reachable on %s", len(newCommits), rname), func(n need) string {
-			// the holding commit was already reachable from a (stale) remote-tracking ref of this remote: was that branch
-			// deleted on the remote in the meantime, or does it still exist there (moved)?
-			cl := ""
-			for _, k := range sortedKeys(pre.LRefs) {
-				pfx := "refs/remotes/" + rname + "/"
-				if !strings.HasPrefix(k, pfx) || !e.isAncestor(w, loc, n.Commit, pre.LRefs[k]) {
-					continue
-				}
-				if _, still := preRefs["refs/heads/"+k[len(pfx):]]; still {
-					return "stale-tracking-ref-of-branch-moved-on-remote"
-				}
-				cl = "stale-tracking-ref-of-branch-deleted-on-remote"
-			}
-			if cl != "" {
-				// finding 1 needs that no cached branch of this remote survives; anything else is a different defect
-				for _, k := range sortedKeys(pre.LRefs) {
-					pfx := "refs/remotes/" + rname + "/"
-					if strings.HasPrefix(k, pfx) {
-						if _, still := preRefs["refs/heads/"+k[len(pfx):]]; still {
-							return cl + ":although-another-cached-branch-remains"
-						}
-					}
-				}
-			}
-			return cl
-		})
+		checkOnServer(needs, fmt.Sprintf("%d commit(s) became reachable on %s", len(newCommits), rname), func(n need) string { return staleClass(n.Oid) })
 
 		// P2: an object needed by the pushed range that is nowhere => the push fails and no ref is updated
 		var attempted []string
@@ -348,7 +359,15 @@ func (e *envT) oracle(w *worker, pre *wstate, o opDef, fault, where string, so *
 		switch o.PushKind {
 		case "lfs-cur":
 			cs := w.revList(loc, "", []string{pre.LRefs["refs/heads/"+pre.Head]}, trackingShas(pre, rname))
-			want = e.neededBy(w, loc, cs)
+			for _, n := range e.neededBy(w, loc, cs) {
+				known := false // "filters out objects that are already referenced by the local clone of the remote"
+				for _, t := range trackingShas(pre, rname) {
+					known = known || e.closureOids(w, loc, t)[n.Oid]
+				}
+				if !known {
+					want = append(want, n)
+				}
+			}
 		case "lfs-all":
 			m := map[string]string{}
 			for k, v := range pre.LRefs {
@@ -382,6 +401,24 @@ func (e *envT) oracle(w *worker, pre *wstate, o opDef, fault, where string, so *
 			so.evals++
 			so.counters["P2.missing_object_push_must_fail"]++
 			n := absent[0]
+			for _, a := range absent { // prefer an object whose absence is not explained by a stale tracking ref
+				if o.Kind != "gitpush" || staleClass(a.Oid) == "" {
+					n = a
+					break
+				}
+			}
+			if sc := ""; o.Kind == "gitpush" && fault == "" {
+				sc = staleClass(n.Oid)
+				if sc != "" && (res.Code == 0 || changed) {
+					// same defect as the P1 report of this very transition (the object was filtered out because of the stale
+					// ref, so git-lfs never noticed that it is nowhere): one defect class, one fingerprint
+					so.counters["P2.violation_subsumed_by_stale_tracking_ref_class"]++
+					so.viol("C03:object-not-on-server:"+sc,
+						fmt.Sprintf("%s: `%s` exited %d (refs of %s changed: %v) although object %s (%s, %s) needed by the pushed range is absent locally and on the server; it is referenced by a commit reachable from a stale remote-tracking ref",
+							where, o.Name, res.Code, rname, changed, labelOf(n.Oid), n.Oid[:12], n.Path), detail(map[string]interface{}{"oid": n.Oid}))
+					goto p2done
+				}
+			}
 			if res.Code == 0 {
 				so.viol(fmt.Sprintf("C03:missing-object-push-succeeded:%s:%s", opk, class),
 					fmt.Sprintf("%s: `%s`%s exited 0 although object %s (%s, %s) needed by the pushed range is absent locally and on the server of %s and lfs.allowincompletepush is not set",
@@ -394,6 +431,7 @@ func (e *envT) oracle(w *worker, pre *wstate, o opDef, fault, where string, so *
 			}
 		}
 	}
+p2done:
 	if fault != "" {
 		so.counters["fault_probe."+fault]++
 	}
